@@ -124,6 +124,12 @@ def mentions(e, sub, depth=0):
     if not isinstance(e, tuple) or depth > 40: return False
     return any(mentions(x, sub, depth + 1) for x in e)
 
+def _walk(e, depth=0):
+    if isinstance(e, tuple) and depth < 40:
+        yield e
+        for x in e:
+            if isinstance(x, tuple): yield from _walk(x, depth + 1)
+
 def is_listener_id(e):
     return mentions(e, "used_streams") or mentions(e, "slice::Iter")
 
@@ -200,6 +206,36 @@ def check_poll_protocol(ctx):
     wakes = {b for (b, c) in body.calls if c.get("fname") in ("wake_by_ref", "wake")}
     unlocks = {b for (b, c) in body.calls if (c.get("resolved") or c.get("f")) == R.SPIN_UNLOCK}
     ctx.ob("R04.2", f"{k}|stores-found", bool(stores), f"{body.f['file']}:{body.f['line']}", f"{len(stores)} waker store site(s)", nontrivial=False)
+    # (a) a store OVERWRITES the slot with a clone of the caller's waker (get_or_insert* keeps a stale waker that belongs to a task no longer polling the stream)
+    for n_, (sb_, c_) in enumerate(stores):
+        if c_ is None: continue
+        overwrites = c_.get("fname") in ("insert", "replace", "write")
+        val = dg.expr(c_["args"][1]) if len(c_["args"]) > 1 else ("?",)
+        from_param = mentions(val, "clone") and any(isinstance(x, tuple) and x[:1] == ("param",) and x[2] == "waker" for x in _walk(val))
+        ctx.ob("R04.2", f"{k}|store-overwrites-with-the-caller-s-waker|{n_ + 1}", overwrites and from_param, body.loc(sb_),
+               f"`{c_.get('fname')}({show(val)[:60]})`; required: the slot is overwritten (insert / replace) with a clone of the waker passed in")
+    # (b) the only path that stores nothing is `Some(registered) && registered.will_wake(waker)`
+    store_blocks = {sb_ for (sb_, _) in stores}
+    ww_true = set()
+    for b in sorted(body.reachable):
+        t = body.term(b)
+        if t[0] == "Switch" and t[5] == "bool":
+            e = dg.expr(t[1]); neg = False
+            while e[0] == "un" and e[1] == "Not": e = e[2]; neg = not neg
+            if e[0] == "call" and e[1].endswith("will_wake"):
+                zero = [tg for (v, tg) in t[2] if v == 0]
+                if zero: ww_true.add((b, t[3]))       # edge taken when will_wake(..) is true (the switch is on the un-negated value)
+    seen = {0}; st_ = [0]
+    while st_:
+        x = st_.pop()
+        if x in store_blocks: continue
+        for s_ in body.succ(x):
+            if (x, s_) in ww_true or s_ in seen: continue
+            seen.add(s_); st_.append(s_)
+    escapes = [r for r in body.returns if r in seen]
+    ctx.ob("R04.2", f"{k}|re-registers-unless-same-waker", bool(ww_true) and not escapes, f"{body.f['file']}:{body.f['line']}",
+           "every path that returns without storing the waker lies on the true edge of `registered.will_wake(waker)`" if not escapes else
+           "a path returns without storing the caller's waker although the stored one would not wake it (or none was stored): producers and cancels keep waking a task that no longer polls the stream")
     seen = set()
     for (sb, c) in stores:
         if sb in seen: continue
